@@ -89,6 +89,8 @@ def events_of_path(path, vmap=None):
             evs.append({'a': 'ValFinish', 'e': a[0], 'v': vmap.get(a[1], a[1])})
         elif act in ('Fire', 'Tick', 'Shutdown', 'Connect'):
             evs.append({'a': act})
+        elif act == 'Jump':
+            evs.append({'a': act, 'to': a[0]})
         elif act == 'Cancel':
             evs.append({'a': act, 'e': a[0]})
         elif act in ('RecvNack', 'RecvNackX'):
@@ -191,6 +193,12 @@ def stage_b_sim(ctx, front, cfgp, label, num, depth, devs=(), vmap=None, report_
 NAMES = [['a'], ['a', 'b'], ['a', 'b', 'c'], ['a', 'c'], ['b'], ['a', 'b', 'd']]
 
 
+def next_timer(entries, unfinished, now):
+    """earliest instant after now at which a lifetime timer of an awaited, unfinished Interest can be armed"""
+    ts = [d for i in unfinished for d in (entries[i]['dl'], entries[i].get('dl2', 0)) if d > now]
+    return min(ts) if ts else None
+
+
 def random_schedule(rng, front, n_events, weights=None, junk=None, verdicts=None, envs=('bare', 'lp', 'lph', 'lpo'),
                     max_entries=6, defer_p=0.2, race_p=0.15):
     """Generates stimuli on the fly while running the real code (the driver needs to know which
@@ -244,7 +252,8 @@ def random_schedule(rng, front, n_events, weights=None, junk=None, verdicts=None
                 if rng.random() < 0.15:
                     # CanBePrefix together with an implicit digest still names one packet
                     dig = rng.choice([1, 2]) + 10 * NAMES.index(name)
-                t = {'name': name, 'cbp': cbp, 'dig': dig, 'life': rng.choice([1, 1, 2, 3])}
+                # 400 ticks = 4000 ms: the lifetime is not given at all and the default applies
+                t = {'name': name, 'cbp': cbp, 'dig': dig, 'life': rng.choice([1, 1, 2, 3, 1, 2, 3, pitkit.DEFAULT_LIFE])}
                 if a == 'Express':
                     emit({'a': a, 't': t, 'defer': rng.random() < defer_p})
                     entries.append({'t': t, 'dl': now + t['life']})
@@ -273,12 +282,18 @@ def random_schedule(rng, front, n_events, weights=None, junk=None, verdicts=None
                 if front == 'v2':
                     entries[e - 1]['verdict'] = True
             elif a == 'Await':
-                emit({'a': a, 'e': rng.choice(awaitable) + 1})
+                k = rng.choice(awaitable)
+                emit({'a': a, 'e': k + 1})
+                entries[k]['dl2'] = now + entries[k]['t']['life']      # legacy: the lifetime may count from here
             elif a == 'Time':
                 if due:
                     emit({'a': 'Fire'})
                 else:
-                    emit({'a': 'Tick'})
+                    nxt = next_timer(entries, unfinished, now)
+                    if nxt is not None and nxt > now + 1 and rng.random() < 0.5:
+                        emit({'a': 'Jump', 'to': rng.choice([nxt, nxt, now + 2 + rng.randrange(nxt - now - 1)])})
+                    else:
+                        emit({'a': 'Tick'})
             elif a == 'Cancel':
                 emit({'a': a, 'e': rng.choice(unfinished) + 1})
             elif a in ('Shutdown', 'Connect'):
@@ -290,10 +305,13 @@ def random_schedule(rng, front, n_events, weights=None, junk=None, verdicts=None
             pend_val = [(i + 1) for i in range(len(run.vfut)) if any(not f.done() for f in run.vfut[i])]
             if not unfinished and not pend_val:
                 break
+            nxt = next_timer(entries, unfinished, now)
             if [i for i in unfinished if entries[i]['dl'] == now]:
                 emit({'a': 'Fire'})
             elif pend_val and rng.random() < 0.5:
                 emit({'a': 'ValFinish', 'e': pend_val[0], 'v': verdicts[0]})
+            elif nxt is not None and nxt > now + 1:
+                emit({'a': 'Jump', 'to': nxt})
             else:
                 emit({'a': 'Tick'})
     finally:
